@@ -109,7 +109,10 @@ void Exec::op_edit(Client &c) {
 		if (!rv) { M.rows[i].coef[j] = v; applied = true; }   // a zero stays as an explicit zero entry (not canonical, counted separately)
 	} else if (what == "chgobj") {
 		if (!n) { T("  skip"); compare_others("edit"); return; }
-		int j = modn(op->i("j"), n); Q v = argq(op, "v", 1); mpq_set(t.at(0), v.get_mpq_t()); rv = mpq_QSchange_objcoef(p, j, t.at(0)); if (!rv) { M.cols[j].obj = v; applied = true; }
+		int j = modn(op->i("j"), n); Q v = argq(op, "v", 1);
+		if (op->s("v", "") == "@") { auto it = o->saved_obj.find(M.cols[j].name); if (it == o->saved_obj.end()) { T("  skip (nothing saved)"); compare_others("edit"); return; } v = it->second; }   // put back what an earlier chgobj with save=1 replaced
+		else if (op->i("save", 0)) o->saved_obj[M.cols[j].name] = M.cols[j].obj;
+		mpq_set(t.at(0), v.get_mpq_t()); rv = mpq_QSchange_objcoef(p, j, t.at(0)); if (!rv) { M.cols[j].obj = v; applied = true; }
 	} else if (what == "chgrhs") {
 		if (!m) { T("  skip"); compare_others("edit"); return; }
 		int i = modn(op->i("i"), m); Q v = argq(op, "v", 1); mpq_set(t.at(0), v.get_mpq_t()); rv = mpq_QSchange_rhscoef(p, i, t.at(0)); if (!rv) { M.rows[i].rhs = v; applied = true; }
